@@ -41,6 +41,16 @@ LocalIdCases == { [bytes |-> MsgBytes(refs, <<Ctl, w>>), payload |-> w, payload_
                     refs \in {<<>>, OneRef},
                     w \in UNION { { VTuple(<<VAtom(<<97, 98, 99>>), i>>), VList(<<i, VAtom(<<97, 98, 99>>)>>, VNil), VMap(<< <<VAtom(<<97, 98, 99>>), i>> >>) } : i \in LocalIds } }
 ASSUME IOEnv.MODE # "cases" \/ ndJsonSerialize(IOEnv.OUT_LOCAL, SetToSeq(LocalIdCases))
+\* a long history of one conforming sender that ends up using every slot of all eight segments (2048 entries): eleven messages of 200 (the
+\* last: 48) new entries each, every message also re-using entries of earlier ones, then one that only re-uses an entry of each segment
+SlotAtom(k) == <<97 + (k \div 676), 97 + ((k \div 26) % 26), 97 + (k % 26)>>
+SlotRef(k, isNew) == [seg |-> k \div 256, idx |-> k % 256, new |-> isNew, atom |-> SlotAtom(k)]
+FillNew(m) == [i \in 1..(IF m = 11 THEN 48 ELSE 200) |-> SlotRef(((m - 1) * 200) + i - 1, TRUE)]
+FillOld(m) == IF m = 1 THEN <<>> ELSE <<SlotRef(0, FALSE), SlotRef(((m - 1) * 200) - 1, FALSE), SlotRef((m - 2) * 200 + 7, FALSE)>>
+FillRefs(m) == IF m = 12 THEN [g \in 1..8 |-> SlotRef(((g - 1) * 256) + 5, FALSE)] ELSE FillOld(m) \o FillNew(m)
+FillTerms(m) == <<Ctl, VTuple([i \in 1..Len(FillRefs(m)) |-> VAtom(FillRefs(m)[i].atom)])>>
+FillChain == [m \in 1..12 |-> [bytes |-> MsgBytes(FillRefs(m), FillTerms(m)), terms |-> FillTerms(m), n |-> m]]
+ASSUME IOEnv.MODE # "cases" \/ ndJsonSerialize(IOEnv.OUT_FILL, FillChain)
 Emit == PrintT(ToJson([from |-> [s |-> sCache, r |-> rCache, n |-> sent], act |-> [bytes |-> last'.bytes, nterms |-> Len(last'.terms)],
                        retA |-> last'.terms, retI |-> last'.resolved, to |-> [s |-> sCache', r |-> rCache', n |-> sent']]))
 =============================================================================
